@@ -1,5 +1,6 @@
 import Dyce.EvalRefine
 import Dyce.EvalConcrete
+import Dyce.EvalFuel
 /-!
 # C07 — Recursion limits cut expansion exactly where documented
 
@@ -28,8 +29,11 @@ limit and continue with any function of its result.
 | -1 is unbounded (`sys.maxsize`), other negatives / fractions outside (0,1) are ValueError | `C07_normalize_int`, `C07_normalize_frac` |
 | returned value = mixture of expanded and sentinel branches | `C07_cut_rule` + C06 (`agg`) |
 
+| whole-number limits everywhere (top level, inherited, and every nested call any callback can make) `≤ N`: the result does not depend on the fuel once it exceeds `N` — the stand-in for the interpreter stack is not observable | `C07_fuel_independent`, `C07_fuel_independent_impl` |
+
 Fuel stands for the interpreter stack: `specEval 0` is `RecursionError`, which the caller converts
-into its sentinel (as documented).
+into its sentinel (as documented).  For whole-number limits the two theorems above remove it from the
+statement; for fractional limits the depth reached depends on the sources' weights and fuel remains.
 -/
 namespace Dyce
 
@@ -103,6 +107,34 @@ theorem C07_normalize_frac (p q : Int) :
   · simp [h]
   · have : ¬ (p ≤ 0 ∨ p ≥ q) := by omega
     simp [this]
+
+/-- with whole-number limits `≤ N` everywhere, any fuel `> N` gives the same answer (stateless rule) -/
+theorem C07_fuel_independent (env : Nat → Fn α ρ) (agg : List (Ret α × Nat) → Hist α)
+    (lowest : Hist α → Hist α) (N : Nat) (hN : 1 ≤ N)
+    (henv : ∀ fn args, ((env fn).body args).LimBounded N)
+    (fuel₁ fuel₂ fn : Nat) (srcs : List (Src ρ)) (lim : Option Limit) (hlim : LimOK N lim)
+    (h₁ : N < fuel₁) (h₂ : N < fuel₂) :
+    specEval env agg lowest fuel₁ fn srcs lim ⟨none, 0, 1, 1⟩
+      = specEval env agg lowest fuel₂ fn srcs lim ⟨none, 0, 1, 1⟩ :=
+  specEval_fuel_indep env agg lowest N hN henv fuel₁ fuel₂ fn srcs lim _ hlim
+    (by intro l hl; simp at hl) ⟨by omega, by simp only; omega⟩ ⟨by omega, by simp only; omega⟩
+
+/-- the same for the ContextVar implementation model started from a fresh interpreter -/
+theorem C07_fuel_independent_impl (env : Nat → Fn α ρ) (agg : List (Ret α × Nat) → Hist α)
+    (lowest : Hist α → Hist α) (N : Nat) (hN : 1 ≤ N)
+    (henv : ∀ fn args, ((env fn).body args).LimBounded N)
+    (fuel₁ fuel₂ fn : Nat) (srcs : List (Src ρ)) (lim : Option Limit) (hlim : LimOK N lim)
+    (h₁ : N < fuel₁) (h₂ : N < fuel₂) :
+    evalFn env agg lowest fuel₁ fn srcs lim none = evalFn env agg lowest fuel₂ fn srcs lim none := by
+  rw [C07_refines_spec, C07_refines_spec]
+  simp only [Option.getD_none]
+  rw [C07_fuel_independent env agg lowest N hN henv fuel₁ fuel₂ fn srcs lim hlim h₁ h₂]
+
+/-- non-vacuity: a callback that re-evaluates itself on its own sources with limit 3 is bounded by 3 -/
+example (srcs : List (Src ρ)) :
+    (Prog.call 0 srcs (some (.int 3)) fun h => (.ret (.hist h) : Prog α ρ)).LimBounded 3 :=
+  .call _ _ _ _ (by intro l hl; simp only [Option.some.injEq] at hl; exact ⟨3, Nat.le_refl _, hl.symm⟩)
+    (fun h => .ret _)
 
 /-! non-vacuity: a concrete recursive evaluation that is cut at depth 2 -/
 example : cutNow (.int 2) ⟨some (.int 2), 2, 1, 36⟩ = true := by decide
